@@ -1,1 +1,196 @@
-fn main() {}
+//! E4: loom-controlled schedules of two real halves (or two connections) driven from two threads.
+//! The library has no synchronisation of its own, so a loom atomic "tick" before every library
+//! call provides the scheduling points. Per-direction bytes must equal the sequential reference
+//! in every schedule. Prints one JSON line; exit 0 = held, 1 = violation, 2 = machinery.
+
+use loom::sync::atomic::{AtomicUsize, Ordering};
+use loom::sync::Arc;
+use refmodel::cipher::{wrath_stream, Dir, Recurrence};
+use std::collections::BTreeSet;
+use std::sync::Mutex;
+use wow_srp::normalized_string::NormalizedString;
+
+static SCHEDULES: std::sync::atomic::AtomicU64 = std::sync::atomic::AtomicU64::new(0);
+static ORDERS: Mutex<BTreeSet<Vec<u8>>> = Mutex::new(BTreeSet::new());
+static MISMATCH: Mutex<Option<String>> = Mutex::new(None);
+
+const OPS: usize = 3;
+const CHUNKS: [usize; OPS] = [4, 6, 1];
+
+fn key(tag: u8) -> [u8; 40] {
+    let mut k = [0u8; 40];
+    for (i, b) in k.iter_mut().enumerate() {
+        *b = (i as u8).wrapping_mul(37).wrapping_add(tag);
+    }
+    k
+}
+fn user() -> NormalizedString {
+    NormalizedString::new("A").unwrap()
+}
+fn plain(thread: u8, op: usize) -> Vec<u8> {
+    (0..CHUNKS[op]).map(|i| (i as u8).wrapping_mul(29).wrapping_add(thread * 101 + op as u8 * 7)).collect()
+}
+
+/// Run `a` and `b` (OPS operations each) in two loom threads with a scheduling point before every
+/// operation; collect outputs; compare with expected.
+fn two_threads<A, B>(name: &'static str, mk: impl Fn() -> (A, B) + Sync + Send + 'static, op_a: fn(&mut A, &mut [u8]), op_b: fn(&mut B, &mut [u8]), want_a: Vec<Vec<u8>>, want_b: Vec<Vec<u8>>)
+where
+    A: Send + 'static,
+    B: Send + 'static,
+{
+    let want_a = std::sync::Arc::new(want_a);
+    let want_b = std::sync::Arc::new(want_b);
+    let mut builder = loom::model::Builder::new();
+    builder.preemption_bound = None;
+    builder.check(move || {
+        SCHEDULES.fetch_add(1, std::sync::atomic::Ordering::Relaxed);
+        let (mut a, mut b) = mk();
+        let tick = Arc::new(AtomicUsize::new(0));
+        let order = Arc::new(loom::sync::Mutex::new(Vec::<u8>::new()));
+        let (t1, o1) = (tick.clone(), order.clone());
+        let ha = loom::thread::spawn(move || {
+            let mut out = vec![];
+            for op in 0..OPS {
+                t1.fetch_add(1, Ordering::SeqCst); // scheduling point
+                let mut d = plain(0, op);
+                op_a(&mut a, &mut d);
+                o1.lock().unwrap().push(0);
+                out.push(d);
+            }
+            out
+        });
+        let (t2, o2) = (tick.clone(), order.clone());
+        let hb = loom::thread::spawn(move || {
+            let mut out = vec![];
+            for op in 0..OPS {
+                t2.fetch_add(1, Ordering::SeqCst);
+                let mut d = plain(1, op);
+                op_b(&mut b, &mut d);
+                o2.lock().unwrap().push(1);
+                out.push(d);
+            }
+            out
+        });
+        let ra = ha.join().unwrap();
+        let rb = hb.join().unwrap();
+        let ord = order.lock().unwrap().clone();
+        if ra != *want_a || rb != *want_b {
+            let mut m = MISMATCH.lock().unwrap();
+            if m.is_none() {
+                *m = Some(format!("{name}: with operation order {ord:?} thread A produced {ra:x?} (sequential reference {:x?}), thread B produced {rb:x?} (reference {:x?})", *want_a, *want_b));
+            }
+        }
+        ORDERS.lock().unwrap().insert(ord);
+    });
+}
+
+fn rec_expect(mut r: Recurrence, thread: u8, enc: bool) -> Vec<Vec<u8>> {
+    (0..OPS)
+        .map(|op| {
+            let mut d = plain(thread, op);
+            if enc {
+                r.enc(&mut d)
+            } else {
+                r.dec(&mut d)
+            }
+            d
+        })
+        .collect()
+}
+fn rc4_expect(mut r: refmodel::hash::Rc4, thread: u8) -> Vec<Vec<u8>> {
+    (0..OPS)
+        .map(|op| {
+            let mut d = plain(thread, op);
+            r.apply(&mut d);
+            d
+        })
+        .collect()
+}
+
+fn main() {
+    let mut harnesses = 0;
+    let k = key(1);
+    let k2 = key(2);
+    // 1. Vanilla: encrypter half in thread A, decrypter half in thread B
+    two_threads(
+        "vanilla halves",
+        move || wow_srp::vanilla_header::ProofSeed::new().into_client_header_crypto(&user(), k, 0).1.split(),
+        |e, d| e.encrypt(d),
+        |e, d| e.decrypt(d),
+        rec_expect(Recurrence::vanilla(&k), 0, true),
+        rec_expect(Recurrence::vanilla(&k), 1, false),
+    );
+    harnesses += 1;
+    // 2. TBC halves
+    two_threads(
+        "tbc halves",
+        move || wow_srp::tbc_header::ProofSeed::new().into_client_header_crypto(&user(), k, 0).1.split(),
+        |e, d| e.encrypt(d),
+        |e, d| e.decrypt(d),
+        rec_expect(Recurrence::tbc(&k), 0, true),
+        rec_expect(Recurrence::tbc(&k), 1, false),
+    );
+    harnesses += 1;
+    // 3. Wrath client halves
+    two_threads(
+        "wrath client halves",
+        move || wow_srp::wrath_header::ProofSeed::new().into_client_header_crypto(&user(), k, 0).1.split(),
+        |e, d| e.encrypt(d),
+        |e, d| e.decrypt(d),
+        rc4_expect(wrath_stream(&k, Dir::ClientToServer), 0),
+        rc4_expect(wrath_stream(&k, Dir::ServerToClient), 1),
+    );
+    harnesses += 1;
+    // 4. two different Vanilla connections, both encrypting
+    two_threads(
+        "two vanilla connections",
+        move || {
+            (
+                wow_srp::vanilla_header::ProofSeed::new().into_client_header_crypto(&user(), k, 0).1,
+                wow_srp::vanilla_header::ProofSeed::new().into_client_header_crypto(&user(), k2, 0).1,
+            )
+        },
+        |e, d| e.encrypt(d),
+        |e, d| e.encrypt(d),
+        rec_expect(Recurrence::vanilla(&k), 0, true),
+        rec_expect(Recurrence::vanilla(&k2), 1, true),
+    );
+    harnesses += 1;
+    // 5. two Wrath client connections with the same key (same keystream, separately owned state)
+    two_threads(
+        "two wrath connections same key",
+        move || {
+            (
+                wow_srp::wrath_header::ProofSeed::new().into_client_header_crypto(&user(), k, 0).1,
+                wow_srp::wrath_header::ProofSeed::new().into_client_header_crypto(&user(), k, 0).1,
+            )
+        },
+        |e, d| e.encrypt(d),
+        |e, d| e.encrypt(d),
+        rc4_expect(wrath_stream(&k, Dir::ClientToServer), 0),
+        rc4_expect(wrath_stream(&k, Dir::ClientToServer), 1),
+    );
+    harnesses += 1;
+
+    let schedules = SCHEDULES.load(std::sync::atomic::Ordering::Relaxed);
+    let orders = ORDERS.lock().unwrap().len();
+    let mismatch = MISMATCH.lock().unwrap().clone();
+    match mismatch {
+        Some(m) => {
+            println!("{}", serde_json::json!({"ok": false, "harness": m.split(':').next().unwrap_or("?"), "violation": m, "schedules": schedules}));
+            std::process::exit(1);
+        }
+        None => {
+            // 2 threads x 3 ops: C(6,3) = 20 distinct operation orders must have been observed
+            if orders < 20 {
+                println!("{}", serde_json::json!({"ok": false, "machinery": format!("only {orders} of 20 operation orders observed")}));
+                std::process::exit(2);
+            }
+            println!(
+                "{}",
+                serde_json::json!({"ok": true, "schedules": schedules, "harnesses": harnesses, "threads": 2, "ops_per_thread": OPS,
+                    "distinct_operation_orders_observed": orders, "distinct_operation_orders_possible": 20, "preemption_bound": "none"})
+            );
+        }
+    }
+}
